@@ -229,6 +229,13 @@ impl EventSource for Park {
 
         let _g = self.delay_drop();
 
+        // register the cancel data before the coroutine becomes visible: once it is stored it may be
+        // resumed and block somewhere else at any time, a registration made after that would replace
+        // the newer one and the cancel of that later wait would be lost
+        #[cfg(may_verif)]
+        crate::verif::pt("psub.set_cancel_co", crate::verif::addr(self), vid, 0);
+        cancel.set_co(self.wait_co.clone());
+
         // register the coroutine
         #[cfg(may_verif)]
         crate::verif::pt("psub.store_co", crate::verif::addr(self), vid, 0);
@@ -256,15 +263,15 @@ impl EventSource for Park {
             return;
         }
 
-        // register the cancel data
-        #[cfg(may_verif)]
-        crate::verif::pt("psub.set_cancel_co", crate::verif::addr(self), vid, 0);
-        cancel.set_co(self.wait_co.clone());
-        // re-check the cancel status
+        // re-check the cancel status: the canceller may have found the slot still empty
+        // (and consumed the registration), so take the coroutine out of this slot directly
         #[cfg(may_verif)]
         crate::verif::pt("psub.recheck_cancel", crate::verif::addr(self), vid, 0);
         if cancel.is_canceled() {
-            unsafe { cancel.cancel() };
+            if let Some(mut co) = self.wait_co.take() {
+                set_co_para(&mut co, io::Error::other("Canceled"));
+                get_scheduler().schedule(co);
+            }
         }
     }
 
